@@ -21,7 +21,7 @@
 //! (proto=https), X-Forwarded-Proto/Port, no proxy-owned name in trailers, and
 //! toward h2c no connection-specific / upper-case field name.
 use std::{
-    io::{Read, Write},
+    io::Write,
     net::{SocketAddr, TcpListener},
     sync::{Arc, Mutex},
     time::Duration,
@@ -31,127 +31,12 @@ use std::{
 mod h2bb;
 #[path = "../recbb.rs"]
 mod recbb;
+#[path = "../h2rec.rs"]
+mod h2rec;
 use h2bb::*;
+use h2rec::*;
 use recbb::*;
 use verif_harness::*;
-
-#[derive(Default)]
-struct H2Record {
-    epoch: usize,
-    blocks: Vec<HL>, // decoded HEADERS blocks, in order (request heads and trailers)
-    data: usize,
-    complete: usize,
-    /// per backend stream: (stream id, :path, DATA bytes, END_STREAM seen)
-    streams: Vec<(u32, Vec<u8>, usize, bool)>,
-}
-
-fn h2c_recording_backend(listener: TcpListener, rec: Arc<Mutex<H2Record>>) {
-    for s in listener.incoming() {
-        let Ok(mut s) = s else { continue };
-        let rec = rec.clone();
-        let my_epoch = rec.lock().unwrap().epoch;
-        std::thread::spawn(move || {
-            let _ = s.set_read_timeout(Some(Duration::from_secs(10)));
-            let mut acc: Vec<u8> = vec![];
-            let mut buf = [0u8; 65536];
-            while acc.len() < 24 {
-                match s.read(&mut buf) {
-                    Ok(0) | Err(_) => return,
-                    Ok(n) => acc.extend_from_slice(&buf[..n]),
-                }
-            }
-            acc.drain(..24);
-            let _ = s.write_all(&settings(&[]));
-            let _ = s.write_all(&frame(T_WU, 0, 0, &(1u32 << 24).to_be_bytes()));
-            let mut dec = loona_hpack::Decoder::new();
-            let mut pending: Vec<u8> = vec![];
-            loop {
-                let (frames, used) = parse_frames(&acc);
-                acc.drain(..used);
-                for f in frames {
-                    match f.t {
-                        T_SETTINGS if f.flags & 1 == 0 => {
-                            let _ = s.write_all(&frame(T_SETTINGS, 1, 0, &[]));
-                        }
-                        T_PING if f.flags & 1 == 0 => {
-                            let _ = s.write_all(&frame(T_PING, 1, 0, &f.payload));
-                        }
-                        T_HEADERS | T_CONT => {
-                            pending.extend_from_slice(&f.payload);
-                            if f.flags & 4 != 0 {
-                                let mut l: HL = vec![];
-                                let _ = dec.decode_with_cb(&pending, |k, v| l.push((k.to_vec(), v.to_vec())));
-                                pending.clear();
-                                {
-                                    let mut g = rec.lock().unwrap();
-                                    if g.epoch == my_epoch {
-                                        if !g.streams.iter().any(|x| x.0 == f.sid) {
-                                            let path = l.iter().find(|(k, _)| k == b":path").map(|(_, v)| v.clone()).unwrap_or_default();
-                                            g.streams.push((f.sid, path, 0, false));
-                                        }
-                                        g.blocks.push(l);
-                                    }
-                                }
-                            }
-                            if f.t == T_HEADERS && f.flags & 1 != 0 {
-                                {
-                                    let mut g = rec.lock().unwrap();
-                                    if g.epoch == my_epoch {
-                                        g.complete += 1;
-                                        if let Some(x) = g.streams.iter_mut().find(|x| x.0 == f.sid) {
-                                            x.3 = true;
-                                        }
-                                    }
-                                }
-                                let mut resp = frame(T_HEADERS, 4, f.sid, &[0x88]);
-                                resp.extend(frame(T_DATA, 1, f.sid, b"h2pong"));
-                                let _ = s.write_all(&resp);
-                            }
-                        }
-                        T_DATA => {
-                            {
-                                let mut g = rec.lock().unwrap();
-                                if g.epoch == my_epoch {
-                                    g.data += f.payload.len();
-                                    if let Some(x) = g.streams.iter_mut().find(|x| x.0 == f.sid) {
-                                        x.2 += f.payload.len();
-                                    }
-                                }
-                            }
-                            if !f.payload.is_empty() {
-                                let inc = (f.payload.len() as u32).to_be_bytes();
-                                let _ = s.write_all(&frame(T_WU, 0, 0, &inc));
-                                if f.flags & 1 == 0 {
-                                    let _ = s.write_all(&frame(T_WU, 0, f.sid, &inc));
-                                }
-                            }
-                            if f.flags & 1 != 0 {
-                                {
-                                    let mut g = rec.lock().unwrap();
-                                    if g.epoch == my_epoch {
-                                        g.complete += 1;
-                                        if let Some(x) = g.streams.iter_mut().find(|x| x.0 == f.sid) {
-                                            x.3 = true;
-                                        }
-                                    }
-                                }
-                                let mut resp = frame(T_HEADERS, 4, f.sid, &[0x88]);
-                                resp.extend(frame(T_DATA, 1, f.sid, b"h2pong"));
-                                let _ = s.write_all(&resp);
-                            }
-                        }
-                        T_GOAWAY => return,
-                        _ => {}
-                    }
-                }
-                match s.read(&mut buf) {
-                    Ok(0) | Err(_) => return,
-                    Ok(n) => acc.extend_from_slice(&buf[..n]),
-                }
-            }
-        });
-    }
-}
 
 fn block_of(hs: &HL) -> Vec<u8> {
     let mut enc = loona_hpack::Encoder::new();
@@ -164,53 +49,6 @@ fn block_of(hs: &HL) -> Vec<u8> {
 
 fn pairs(a: &[Tok]) -> HL {
     a.chunks(2).filter(|c| c.len() == 2).map(|c| (c[0].b().to_vec(), c[1].b().to_vec())).collect()
-}
-
-const CONN_SPECIFIC: [&[u8]; 8] = [b"connection", b"proxy-connection", b"transfer-encoding", b"upgrade", b"keep-alive", b"host", b"http2-settings", b"trailer"];
-
-fn judge_h2c(r: &H2Record, nstreams: usize, out: &mut Out) {
-    for l in r.blocks.iter() {
-        // a block with pseudo-headers is a request head, one without is a trailer section
-        let i = if l.iter().any(|(k, _)| k.starts_with(b":")) { 0 } else { 1 };
-        for (k, v) in l {
-            if k.iter().any(|c| c.is_ascii_uppercase()) {
-                out.viol("bb-h2-uppercase", &String::from_utf8_lossy(k));
-            }
-            if CONN_SPECIFIC.iter().any(|n| k == n) || (k == b"te" && !v.eq_ignore_ascii_case(b"trailers")) {
-                out.viol("bb-h2-connection-specific", &String::from_utf8_lossy(k));
-            }
-            if k.iter().chain(v.iter()).any(|c| *c == b'\r' || *c == b'\n' || *c == 0) {
-                out.viol("bb-h2-crlf", &String::from_utf8_lossy(k));
-            }
-        }
-        let vals = |n: &[u8]| -> Vec<&Vec<u8>> { l.iter().filter(|(k, _)| k == n).map(|(_, v)| v).collect() };
-        if i == 0 {
-            if vals(b"sozu-id").len() != 1 || vals(b"x-request-id").len() != 1 {
-                out.viol("bb-h2-ids", &format!("{} correlation headers, {} x-request-id", vals(b"sozu-id").len(), vals(b"x-request-id").len()));
-            }
-            let le = |v: &Vec<u8>| -> Vec<u8> { trim_ows(v.rsplit(|c| *c == b',').next().unwrap_or(v)).to_vec() };
-            if vals(b"x-forwarded-for").last().map(|v| le(v)) != Some(b"127.0.0.1".to_vec()) {
-                out.viol("bb-h2-xff", "last x-forwarded-for element is not the client address");
-            }
-            match vals(b"forwarded").last().map(|v| le(v)) {
-                Some(e) if e.starts_with(b"proto=https;for=\"127.0.0.1:") && e.ends_with(b"\";by=127.0.0.1") => {}
-                _ => out.viol("bb-h2-forwarded", "last forwarded element is not sozu's"),
-            }
-            let np = l.iter().take_while(|(k, _)| k.starts_with(b":")).count();
-            if l[np..].iter().any(|(k, _)| k.starts_with(b":")) || np != 4 {
-                out.viol("bb-h2-pseudo", "pseudo-headers toward the backend are not exactly the four, first");
-            }
-        } else {
-            for (k, _) in l {
-                if OWNED.iter().any(|n| k == n) {
-                    out.viol("bb-trailer-spoof", &format!("h2c trailer {} reached the backend", String::from_utf8_lossy(k)));
-                }
-            }
-        }
-    }
-    if r.streams.len() > nstreams {
-        out.viol("bb-h2-count", &format!("{} requests reached the h2c backend for {} stream(s)", r.streams.len(), nstreams));
-    }
 }
 
 fn main() {
@@ -297,22 +135,11 @@ fn main() {
                 "go" => {
                     phases.push(Phase::Send(std::mem::take(&mut frames)));
                     new_case(&rec);
-                    {
-                        let mut g = rec2.lock().unwrap();
-                        let e = g.epoch + 1;
-                        *g = H2Record::default();
-                        g.epoch = e;
-                    }
+                    new_case_h2(&rec2);
                     let (outcomes, goaway) = run_conn(front, &phases, &sids);
                     std::thread::sleep(Duration::from_millis(40));
                     let r = take_case(&rec);
-                    let r2 = {
-                        let mut g = rec2.lock().unwrap();
-                        let e = g.epoch;
-                        let r = std::mem::take(&mut *g);
-                        g.epoch = e;
-                        r
-                    };
+                    let r2 = take_case_h2(&rec2);
                     let mut t = vec![ts("client"), tn(outcomes.len())];
                     for (sd, kind, code) in &outcomes {
                         t.push(tn(*sd));
@@ -334,6 +161,12 @@ fn main() {
                         t.push(tn(x.2));
                         t.push(tbool(x.3));
                     }
+                    // streams on which the h2c backend received RST_STREAM (paths)
+                    t.push(ts("h2rst"));
+                    t.push(tn(r2.rsts.len()));
+                    for sd in &r2.rsts {
+                        t.push(tb(r2.streams.iter().find(|x| x.0 == *sd).map(|x| &x.1[..]).unwrap_or(b"?")));
+                    }
                     out.obs(&t);
                     // ---- oracle
                     judge_proto(&r, front, &[], b"https", false, &mut out);
@@ -353,7 +186,7 @@ fn main() {
                             out.viol("bb-h2-dup-cl", "two Content-Length lines reached the backend");
                         }
                     }
-                    judge_h2c(&r2, sids.len(), &mut out);
+                    judge_h2c(&r2, sids.len(), b"https", &mut out);
                     frames.clear();
                     phases.clear();
                     sids.clear();
